@@ -109,17 +109,17 @@ pub fn k14_owner_and_route<S: Src, const N: usize>(s: &mut S) {
         }
         p += 1;
     }
-    s.check(owners >= 1, "service key has no owner among the live nodes");
-    s.check(owners <= 1, "service key has more than one owner among the live nodes");
+    vcheck!(s, owners >= 1, "service key has no owner among the live nodes");
+    vcheck!(s, owners <= 1, "service key has more than one owner among the live nodes");
     let mut p = 0;
     while p < N {
         if valid[p] {
-            s.check(route_pos[p] < N, "no routable node although a live node exists");
-            s.check(route_pos[p] == owner_pos, "write is routed to a node that does not consider itself the owner");
+            vcheck!(s, route_pos[p] < N, "no routable node although a live node exists");
+            vcheck!(s, route_pos[p] == owner_pos, "write is routed to a node that does not consider itself the owner");
         }
         p += 1;
     }
-    s.check(route_local_ok, "route marks the wrong node as local");
+    vcheck!(s, route_local_ok, "route marks the wrong node as local");
 }
 
 pub fn k14_n1<S: Src>(s: &mut S) {
